@@ -10,7 +10,7 @@ from __future__ import annotations
 
 import asyncio
 import itertools
-from datetime import datetime, timezone
+from datetime import datetime, timedelta, timezone
 
 from frequenz.channels import Broadcast
 from frequenz.client.microgrid import ComponentCategory
@@ -66,8 +66,13 @@ EVENTS = (
 EVENTS_T = EVENTS + [("bounds", "excl"), ("reg", "r1", 1, 50, None), ("op", "o2", 4, None, (-100, 600))]
 
 
-def sb(spec, loop):
-    ts = loop.wall_now()
+OLD_STAMPED = {"shrink", "shift"}  # delivered with a timestamp older than the previous message's
+
+
+def sb(spec, loop, old=False):
+    # SystemBounds.timestamp is the newest sample time among the working components: it moves backwards when the
+    # component with the freshest sample drops out (which is also when the bounds shrink)
+    ts = loop.wall_now() - (timedelta(seconds=30) if old else timedelta(0))
     if spec is None:
         return SystemBounds(timestamp=ts, inclusion_bounds=None, exclusion_bounds=None)
     lo, hi, el, eu = spec
@@ -116,7 +121,7 @@ def run_history(hist, start="warm"):
                     loop.settle()
                 elif e[0] == "bounds":
                     cur_bounds[0] = BOUNDS[e[1]]
-                    loop.create_task(bs.send(sb(BOUNDS[e[1]], loop)))
+                    loop.create_task(bs.send(sb(BOUNDS[e[1]], loop, old=e[1] in OLD_STAMPED)))
                     loop.settle()
                 elif e[0] == "result":
                     req = last_request[0] or Request(power=W(0), component_ids=set(IDS))
